@@ -280,8 +280,10 @@ def check_continue(rep, stats):
   for api in ('ContinueWith', 'Map'):
     for src, srcval in [('ok', 'src')] + [('ok', f) for f in FALSY] + [('fail', None)]:
       for when in ('before', 'after'):     # source completes before / after the call
-        for cont in ('returns', 'raises', 'returns_ar', 'returns_failed_ar'):
+        for cont in ('returns', 'raises', 'returns_ar', 'returns_failed_ar', 'blocks'):
           for on_hub in ((True, False) if api == 'ContinueWith' else (None,)):
+            if cont == 'blocks' and on_hub is not False:
+              continue      # a continuation that blocks needs a greenlet of its own (on_hub=False)
             calls = []
             ar = AsyncResult()
 
@@ -294,6 +296,10 @@ def check_continue(rep, stats):
 
             def fn(x):
               calls.append(x)
+              if cont == 'blocks':
+                import gevent
+                gevent.sleep(0.005)     # blocks for several loop iterations before it returns
+                return 'cont'
               if cont == 'raises':
                 raise Err(7)
               if cont == 'returns_ar':
@@ -318,6 +324,17 @@ def check_continue(rep, stats):
               fire()
               vloop.run_ready()
             vloop.run_ready()
+            if cont == 'blocks':
+              lp = vloop.loop()
+              end = lp.now() + 0.02
+              while True:
+                tm = lp.next_timer()
+                if tm is None or tm.at > end:
+                  break
+                lp.fire(tm)
+                vloop.run_ready()
+              lp.advance_to(end)
+              vloop.run_ready()
             got = snap(out)
             stats['steps'] += 1
             stats['cases'] += 1
